@@ -5,6 +5,7 @@ package p18
 import (
 	"fmt"
 	"os"
+	"time"
 	"runtime"
 	"strconv"
 	"strings"
@@ -55,7 +56,31 @@ func (P) Facts() []core.Fact {
 
 // ---------------------------------------------------------------- exec (real code)
 
-func (P) Exec(line string) string {
+// Exec runs one case under a watchdog: on a tree where the peer hangs in a way
+// the per-wait limits do not cover, the case is reported instead of blocking
+// the run.
+func (p P) Exec(line string) string {
+	res := make(chan string, 1)
+	go func() {
+		defer func() {
+			if r := recover(); r != nil {
+				res <- "panic"
+			}
+		}()
+		res <- p.exec(line)
+	}()
+	select {
+	case out := <-res:
+		return out
+	case <-time.After(execLimit):
+		noteTimeout()
+		return "watchdog-timeout"
+	}
+}
+
+const execLimit = 120 * time.Second
+
+func (P) exec(line string) string {
 	f := strings.Fields(line)
 	if len(f) < 2 || f[0] != "C18" {
 		return "bad-op"
@@ -204,10 +229,10 @@ func (P) Exec(line string) string {
 			return "bad-op"
 		}
 		n, err := strconv.Atoi(f[3])
-		if err != nil || n < 0 || n > tune("capOutputQueue") || (f[4] != "fail" && f[4] != "ok") {
+		if err != nil || n < 0 || n > tune("capOutputQueue") || (f[4] != "fail" && f[4] != "ok" && f[4] != "disc") {
 			return "bad-op"
 		}
-		return runPrestart(f[2] == "in", n, f[4] == "fail")
+		return runPrestart(f[2] == "in", n, f[4])
 	case "leakhunt":
 		// C18 leakhunt <attempts> <seed>: backlog-heavy disconnect races on real
 		// peers; counts runs after which a peer goroutine was still alive.
@@ -219,16 +244,26 @@ func (P) Exec(line string) string {
 		if err1 != nil || err2 != nil || n < 0 || n > 100000 {
 			return "bad-op"
 		}
-		leaks := 0
+		leaks, unsig := 0, 0
 		r := core.NewRand(seed)
 		for i := 0; i < n; i++ {
 			c := pipeCfg{nProd: 1 + r.Intn(3), nMsg: 20 + r.Intn(20), seed: r.U64(), mode: []int{0, 0, 2}[r.Intn(3)]}
 			c.fireAt = r.Intn(c.nProd*c.nMsg/2 + 1)
-			if runPipe(c).leak {
+			o := safePipe(c)
+			if o.leak || o.note != "" {
 				leaks++
 			}
+			inB := map[int]bool{}
+			for _, id := range o.before {
+				inB[id] = true
+			}
+			for id, k := range o.done {
+				if k > 1 || (k == 0 && inB[id]) {
+					unsig++
+				}
+			}
 		}
-		return fmt.Sprintf("leaks=%d", leaks)
+		return fmt.Sprintf("leaks=%d unsignalled=%d", leaks, unsig)
 	case "trace":
 		// The line carries what a real run of the pipeline scenario showed
 		// (recorded by Generate, or by an earlier run when replaying); the
@@ -332,6 +367,28 @@ func finishScript(toks []string, ours int64) []string {
 		out = append(out, tail)
 	}
 	return out
+}
+
+// safePipe runs a pipeline scenario while GENERATING; a panic or a hang of the
+// (possibly mutated) tree becomes an anomaly note on the line, which the model
+// cannot explain.
+func safePipe(c pipeCfg) (o pipeObs) {
+	done := make(chan pipeObs, 1)
+	go func() {
+		defer func() {
+			if r := recover(); r != nil {
+				done <- pipeObs{done: map[int]int{}, note: "panic-in-scenario"}
+			}
+		}()
+		done <- runPipe(c)
+	}()
+	select {
+	case o = <-done:
+		return o
+	case <-time.After(execLimit):
+		noteTimeout()
+		return pipeObs{done: map[int]int{}, note: "scenario-hung"}
+	}
 }
 
 // randHS draws one random handshake script with its configuration.
@@ -559,7 +616,7 @@ func (P) Generate(g *core.Gen) {
 	}
 	// 3. messages queued while the handshake is still in progress.
 	for _, dir := range []string{"in", "out"} {
-		for _, mode := range []string{"fail", "ok"} {
+		for _, mode := range []string{"fail", "ok", "disc"} {
 			capOut := tune("capOutputQueue")
 			for _, n := range []int{0, 1, 2, 7, capOut - 1, capOut} {
 				if n < 0 {
@@ -603,7 +660,7 @@ func (P) Generate(g *core.Gen) {
 			ci := tune("capOutputInvChan")
 			c.invExtra = ci + r.Intn(ci+1)
 		}
-		o := runPipe(c)
+		o := safePipe(c)
 		class := fmt.Sprintf("pipe-mode%d", c.mode)
 		g.Case(class, len(o.written) > 0 || len(o.before) > 0, pipeLine(c, o))
 	}
